@@ -162,6 +162,23 @@ def get_back_edge_op(loop: scf.ForOp | scf.WhileOp) -> Operation:
     return block.last_op
 
 
+def get_block_back_edge_ops(op1: Operation, op2: Operation) -> list[Operation]:
+    """
+    In a region of several blocks (cf.br / cf.cond_br) a block may be reached again: every path from one of the
+    operations back to the other passes the terminator of the block it is in (or nested in).
+    """
+    result: list[Operation] = []
+    for op in (op1, op2):
+        block = op.parent_block()
+        while block is not None:
+            region = block.parent_region()
+            if region is not None and len(region.blocks) > 1 and block.last_op is not None and block.last_op.successors:
+                result.append(block.last_op)
+            parent = block.parent_op()
+            block = parent.parent_block() if parent is not None else None
+    return result
+
+
 class InsertSyncBarrier(ModulePass):
     """This pass inserts  snax synchronisation barriers in a program.
     Synchronisation barriers are required when data is shared between
@@ -211,12 +228,14 @@ class InsertSyncBarrier(ModulePass):
                         # the two ops meet again in the next iteration of every loop they share
                         if (for_op := get_common_for_op(op_in_module, user)) is not None:
                             ops_to_sync.append(get_back_edge_op(for_op))
+                        ops_to_sync.extend(get_block_back_edge_ops(op_in_module, user))
 
                     if dispatch_to_compute(op_in_module, ctx) and not dispatch_to_compute(user, ctx):
                         ops_to_sync.append(user)
                         # the two ops meet again in the next iteration of every loop they share
                         if (for_op := get_common_for_op(op_in_module, user)) is not None:
                             ops_to_sync.append(get_back_edge_op(for_op))
+                        ops_to_sync.extend(get_block_back_edge_ops(op_in_module, user))
 
                     # an operation that every core executes and that may look into the buffer (a call, an unknown
                     # operation): a later operation of one core on that buffer has to wait for all of them
@@ -229,6 +248,7 @@ class InsertSyncBarrier(ModulePass):
                         ops_to_sync.append(user)
                         if (for_op := get_common_for_op(op_in_module, user)) is not None:
                             ops_to_sync.append(get_back_edge_op(for_op))
+                        ops_to_sync.extend(get_block_back_edge_ops(op_in_module, user))
 
                     if isinstance(user, DeallocOp):
                         # if the operation is a sync op, clear the list
